@@ -24,6 +24,24 @@ from ..gen import prog
 from ..ref import jast
 
 PROP = "C16"
+IMPORT_DIR = None
+
+
+def make_import_dir():
+    """files shared by all observations of one shard (same absolute path in every observation)"""
+    import tempfile
+    d = tempfile.mkdtemp(prefix="c16-")
+    files = {"ok.libsonnet": "{ x: 1, z: [1, 2] }", "bad_eval.libsonnet": "local a = { f: 1 }; a.g",
+             "bad_eval2.libsonnet": "{ a: error 'boom' }.a", "bad_syntax.libsonnet": "{ a: 1,, }",
+             "bad_nested.libsonnet": "[import 'ok.libsonnet', import 'bad_eval.libsonnet']",
+             "bad_assert.libsonnet": "assert 1 == 2 : 'nope'; 1",
+             "lazy_bad.libsonnet": "{ a: error 'lazy a', b: import 'bad_eval.libsonnet', c: self.a }"}
+    for k, v in files.items():
+        with open(os.path.join(d, k), "w") as f:
+            f.write(v)
+    with open(os.path.join(d, "bad_utf8.libsonnet"), "wb") as f:
+        f.write(b"'caf\xe9\xff'")
+    return d
 IDENT = re.compile(r"[A-Za-z_][A-Za-z0-9_]*")
 
 
@@ -66,6 +84,13 @@ def templates(rng):
                      "std.manifestIni({ main: %s, sections: {} })", "std.assertEqual(%s, {})", "[v for v in std.objectValues(%s)]"])
     T.append(("several-failing-fields-through-std", fn.replace("%s", failing), None))
     T.append(("several-tracing-fields-through-std", fn.replace("%s", tracing), None))
+    # two separately built objects with the same field names whose fields all fail (or all trace, with one difference):
+    # which error equality reports, and the order of the traces, must not depend on the iteration order of a hash table
+    failing2 = "{ " + ", ".join("%s: error '%s'" % (n, n) for n in reversed(ns)) + " }"
+    tracing2 = "{ " + ", ".join("%s: std.trace('%s', %d)" % (n, n, i + (1 if n == sorted(ns)[-1] else 0)) for i, n in enumerate(ns)) + " }"
+    eq = rng.choice(["%s == %s", "%s != %s", "std.equals(%s, %s)", "std.assertEqual(%s, %s)", "std.member([%s], %s)", "[%s] == [%s]", "std.count([%s], %s)"])
+    T.append(("equality-of-failing-objects", eq % (failing, failing2), None))
+    T.append(("equality-of-tracing-objects", eq % (tracing, tracing2), None))
     T.append(("several-failing-asserts", "{ " + ", ".join("assert false : '%s'" % n for n in ns[:4]) + ", a: 1 }", None))
     T.append(("several-failing-elements", "[ " + ", ".join("error '%s'" % n for n in ns) + " ]", None))
     T.append(("failing-tlas", "function(%s) [%s]" % (", ".join(ns[:4]), ", ".join(ns[:4])), [[n, "code", "error '%s'" % n] for n in ns[:4]]))
@@ -106,6 +131,18 @@ def templates(rng):
     T.append(("near-stack-limit", "local f(n) = if n == 0 then 0 else 1 + f(n - 1); f(%d)" % k, None))
     T.append(("near-stack-limit-object", "local o = { f(n): if n == 0 then 0 else 1 + self.f(n - 1) }; o.f(%d)" % (k - rng.randrange(0, 8)), None))
     T.append(("near-stack-limit-map", "local f(n) = if n == 0 then 0 else std.map(function(x) f(x), [n - 1])[0] + 1; f(%d)" % (40 + rng.randrange(0, 30)), None))
+    # imported files that fail (at evaluation, at parsing, at decoding) or succeed: the error text of the n-th import of a
+    # failing file on one evaluation state must be that of the first
+    if IMPORT_DIR:
+        d = IMPORT_DIR
+        bad = rng.choice(["bad_eval", "bad_eval2", "bad_syntax", "bad_utf8", "bad_nested", "bad_assert"])
+        T.append(("import-failing-file", "import '%s/%s.libsonnet'" % (d, bad), None))
+        T.append(("import-failing-file-lazy", "local x = import '%s/%s.libsonnet'; [1, x]" % (d, bad), None))
+        T.append(("import-ok-and-failing", "[import '%s/ok.libsonnet', (import '%s/ok.libsonnet') { y: import '%s/%s.libsonnet' }]" % (d, d, d, bad), None))
+        T.append(("import-failing-field", "(import '%s/lazy_bad.libsonnet').%s" % (d, rng.choice(["a", "b", "c"])), None))
+        T.append(("importstr-then-import", "[std.length(importstr '%s/%s.libsonnet'), import '%s/%s.libsonnet']" % (d, bad, d, bad), None))
+        T.append(("import-missing", "import '%s/missing_%s.libsonnet'" % (d, ns[0]), None))
+        T.append(("import-ok", "[import '%s/ok.libsonnet', importstr '%s/ok.libsonnet', std.length(importbin '%s/bad_utf8.libsonnet')]" % (d, d, d), None))
     T.append(("type-error-message", "std.length(%s)" % rng.choice(["1", "null", "true"]), None))
     T.append(("format-error", "'%%(%s)s' %% %s" % (miss, obj), None))
     T.append(("native-missing", "std.native('%s')" % miss, None))
@@ -248,6 +285,8 @@ def worker_alive_patch():
 def shard(idx, n, tier, seed, binary, cli):
     worker_alive_patch()
     acc = runner.Acc()
+    global IMPORT_DIR
+    IMPORT_DIR = make_import_dir()
     ob = Observer(binary, cli, acc)
     try:
         rounds = 2 if tier == "quick" else 14
@@ -266,12 +305,19 @@ def shard(idx, n, tier, seed, binary, cli):
             acc.sample({"history_length_of_long_lived_worker": ob.hist_n})
     finally:
         ob.close()
+        import shutil
+        shutil.rmtree(IMPORT_DIR, ignore_errors=True)
+        IMPORT_DIR = None
     return acc
 
 
 def run(tier, seed, t0):
+    global IMPORT_DIR
     bins = runner.build("rel")
     cli = runner.build_cli()["jrsonnet"]
+    IMPORT_DIR = "/d"
+    ntemplates = len(templates(random.Random(0)))
+    IMPORT_DIR = None
     accs = runner.shard_map(shard, (tier, seed, bins["jv-worker"], cli))
     acc = runner.Acc()
     for a in accs:
@@ -283,7 +329,8 @@ def run(tier, seed, t0):
              "function, sets and sorts of strings, traces through functions, stack limits) and random generated programs (values and errors); each evaluated in "
              "two fresh processes (one with a shuffled pre-interned string pool), in a long-lived process after a random history (values, errors, stack overflows, "
              "pool changes) in a long-lived state, a fresh state and again, and a sample by 3 runs of the executable. distinct_nontrivial = programs whose 5 (8) "
-             "observations were byte-identical" % len(templates(random.Random(0))),
+             "observations were byte-identical; imports of files that fail at evaluation / parsing / decoding / through a nested import, eagerly and in lazily "
+             "evaluated fields, repeated on the long-lived state" % ntemplates,
         assumptions=["address-space layout differs between processes (ASLR is on in this sandbox) and between pre-interned pools"],
         min_events=3000)
 
